@@ -47,6 +47,11 @@ def float_close(x, y, dt):
     return abs(x - y) <= rel * max(abs(x), abs(y)) + (1e-30 if dt == "f32" else 1e-300) or abs(x - y) <= (1e-37 if dt == "f32" else 1e-307)
 
 
+# largest finite magnitude among the float inputs of the case being judged (cancellation error of a
+# float32 / float64 kernel is proportional to it); set by judge_op
+SCALE_HINT = [0.0]
+
+
 def tensor_eq(a, b):
     if a is None or b is None:
         return a is None and b is None
@@ -59,7 +64,7 @@ def tensor_eq(a, b):
         if len(fa) != len(fb):
             return False
         # absolute slack proportional to the largest finite magnitude in the tensor (cancellation)
-        scale = max([1.0] + [abs(v) for v in fa + fb if math.isfinite(v)])
+        scale = max([1.0, SCALE_HINT[0]] + [abs(v) for v in fa + fb if math.isfinite(v)])
         atol = (3e-6 if a.get("dt") == "f32" else 1e-13) * scale
         return all(float_close(x, y, a.get("dt")) or (math.isfinite(x) and math.isfinite(y) and abs(x - y) <= atol) for x, y in zip(fa, fb))
     da, db = a.get("data") or [], b.get("data") or []
@@ -221,6 +226,10 @@ def judge_op(c):
     """operator-level case: impl/model/spec all of the form {status, outs, mut}; spec has a domain."""
     impl, model, spec = c["impl"], c.get("model"), c.get("spec")
     guard = c.get("guard") or []
+    SCALE_HINT[0] = 0.0
+    for t in c.get("inputs") or []:
+        if t and t.get("bits"):
+            SCALE_HINT[0] = max([SCALE_HINT[0]] + [abs(v) for v in floats_of(t) if math.isfinite(v)])
     key = (c.get("op"), c.get("stream"), tuple(c.get("tags") or []), impl["status"])
     if model is None or model.get("status") == "unmodelled":
         corr = "skip"
